@@ -342,6 +342,25 @@ func runC01(c *h.Ctx) {
 			}
 		}
 	}
+	// triples of triples: which triples share an id and which do not (the id
+	// numbers themselves are left open; equal and distinct is what counts)
+	for _, pt := range []string{"$.keyvalue().keyvalue()", "$.keyvalue().keyvalue().keyvalue()", "$.o.keyvalue().keyvalue().keyvalue()", "$.keyvalue().keyvalue().keyvalue().keyvalue()",
+		"$.keyvalue().keyvalue().keyvalue() ? (@.key == \"id\")", "$.o.keyvalue().keyvalue() ? (@.key != \"key\").keyvalue()", "$[*].keyvalue().keyvalue().keyvalue()", "strict $.o.keyvalue().keyvalue().keyvalue()"} {
+		for _, d := range []string{`{"a":1}`, `{"a":1,"o":{"x":1,"y":[2]}}`, `{"o":{"x":1,"y":2}}`, `[{"a":1},{"b":2}]`} {
+			k++
+			if !c.Mine(k) {
+				continue
+			}
+			for _, useNum := range []bool{false, true} {
+				ec, err := CaseFrom(h.Case{Path: pt, Doc: d, UseNum: useNum, Vars: stdVars})
+				if err != nil {
+					c.Count("gen.unparsable", 1)
+					continue
+				}
+				checkC01(c, ec)
+			}
+		}
+	}
 	// an operand that is not a single number (nothing, several items, a
 	// non-number) next to an operand that raises a non-suppressible error
 	for _, l := range []string{"$.nokey", "$.a[*]", "$.s", "$.a", "$.n", "$.a[0]", "$.e[*]", `"x"`, "null", "$.a[5]"} {
